@@ -137,6 +137,15 @@ theorem services_leaves : Leaves (keeps ServicesInv) where
     split
     · rfl
     · split <;> rfl
+  installMonitor := fun _ _ _ h => h
+  joinMonitors := by
+    intro b c x rules h
+    refine servicesInv_of_services_eq ?_ h
+    show (gcRules b _).services = _
+    unfold gcRules
+    split
+    · rfl
+    · split <;> rfl
   clearRules := fun _ _ h => h
   removeConn := fun _ _ h => h
   connect := fun _ _ _ _ _ _ h => h
